@@ -470,6 +470,36 @@ impl<'a> VisitMut for Rw<'a> {
                     }
                 }
             }
+            // R11: `x &= <comparison>` / `x |= <comparison>` on bools (Verus lacks non-short-circuit bool ops):
+            //      evaluate the right side first (as Rust does), then combine with && / ||.
+            if let Stmt::Expr(Expr::Binary(bin), Some(_)) = &s {
+                let is_cmp = |e: &Expr| -> bool {
+                    let e = if let Expr::Paren(p) = e { &*p.expr } else { e };
+                    matches!(e, Expr::Binary(b) if matches!(b.op, syn::BinOp::Eq(_) | syn::BinOp::Ne(_) | syn::BinOp::Lt(_) | syn::BinOp::Le(_) | syn::BinOp::Gt(_) | syn::BinOp::Ge(_)))
+                };
+                let which = match bin.op {
+                    syn::BinOp::BitAndAssign(_) if is_cmp(&bin.right) => Some(true),
+                    syn::BinOp::BitOrAssign(_) if is_cmp(&bin.right) => Some(false),
+                    _ => None,
+                };
+                if let Some(is_and) = which {
+                    let tmp = syn::Ident::new(&format!("vx_tmp{}", self.tmp), Span::call_site());
+                    self.tmp += 1;
+                    let l = &bin.left;
+                    let r = &bin.right;
+                    let news: Vec<Stmt> = if is_and {
+                        vec![syn::parse2(quote!( let #tmp : bool = #r; )).unwrap(), syn::parse2(quote!( #l = #l && #tmp; )).unwrap()]
+                    } else {
+                        vec![syn::parse2(quote!( let #tmp : bool = #r; )).unwrap(), syn::parse2(quote!( #l = #l || #tmp; )).unwrap()]
+                    };
+                    self.log.add("R11", "bool-opassign", format!("{}", bin.to_token_stream()));
+                    for mut n in news {
+                        self.visit_stmt_mut(&mut n);
+                        out.push(n);
+                    }
+                    continue;
+                }
+            }
             // R9: destructuring assignment `(a, b) = e;`
             if let Stmt::Expr(Expr::Assign(asg), Some(_)) = &s {
                 if let Expr::Tuple(t) = &*asg.left {
@@ -708,6 +738,25 @@ fn gen_unit(ctx: &mut Ctx, u: &UnitSpec, report: &mut Vec<serde_json::Value>) ->
     rw.visit_signature_mut(&mut fp.sig);
     if !u.external_body {
         rw.visit_block_mut(&mut fp.block);
+    }
+    // R10: `mut self` (by value) => `self` + `let mut vx_self = self;`, uses renamed (binding mutability only)
+    let mut_self = matches!(fp.sig.inputs.first(), Some(syn::FnArg::Receiver(r)) if r.reference.is_none() && r.mutability.is_some());
+    if mut_self && !u.external_body {
+        if let Some(syn::FnArg::Receiver(r)) = fp.sig.inputs.first_mut() {
+            r.mutability = None;
+        }
+        struct SelfRename;
+        impl VisitMut for SelfRename {
+            fn visit_ident_mut(&mut self, i: &mut syn::Ident) {
+                if i == "self" {
+                    *i = syn::Ident::new("vx_self", i.span());
+                }
+            }
+            fn visit_macro_mut(&mut self, _m: &mut syn::Macro) {}
+        }
+        SelfRename.visit_block_mut(&mut fp.block);
+        fp.block.stmts.insert(0, syn::parse2(quote!( let mut vx_self = self; )).unwrap());
+        rw.log.add("R10", "mut-self", "`mut self` => `self` + `let mut vx_self = self;`".into());
     }
     let nloops = rw.loops;
     if let Some(e) = rw.err.take() {
